@@ -102,7 +102,12 @@ LISTFILE = "list.txt"
 SPELLINGS = {"replace_dot": ["--replace", "./" + FNAME], "replace_dd": ["--replace", ".//" + FNAME],
              "replace_F": ["--replace", "-F", LISTFILE], "replace_Fdd": ["--replace", "-F", LISTFILE],
              "nobackup_dd": ["--no-backup", ".//" + FNAME], "nobackup_F": ["--no-backup", "-F", LISTFILE],
-             "fo_dd": ["-f", FNAME, "-o", ".//" + FNAME]}
+             "fo_dd": ["-f", FNAME, "-o", ".//" + FNAME],
+             # the same requests with a debug option that writes a file of its own (--tracking ends the run behind its HTML file)
+             "replace_trk": ["--replace", FNAME, "--tracking", "space:aux_trk.html"], "nobackup_trk": ["--no-backup", FNAME, "--tracking", "nl:aux_trk.html"],
+             "fo_trk": ["-f", FNAME, "-o", FNAME, "--tracking", "start:aux_trk.html"],
+             "replace_ic_trk": ["--replace", "--if-changed", FNAME, "--tracking", "space:aux_trk.html"],
+             "replace_p": ["--replace", FNAME, "-p", "aux_parsed.txt"], "nobackup_p": ["--no-backup", FNAME, "-p", "aux_parsed.txt"]}
 
 
 def run_cmd(w, k, m):
